@@ -1,5 +1,153 @@
-(* C21/Properties.v -- placeholder while the pipeline is brought up *)
+(* C21/Properties.v -- property C21: the voter's vote choices and finalisation follow
+   GRANDPA-GHOST.  Statements only.
+
+   Model.v mirrors lib/grandpa function by function, with the three repairs
+   C21-vote-number-unchecked, C21-precommit-cap-wrong-fork and C21-ghost-misses-unvoted-fork-point;
+   the pinned behaviour is kept as the [false] instances of the flags / the _prefix definitions
+   and refuted below.  Spec.v states what the property demands over
+   the GRANDPA specification of Grandpa/ (the same [ghost], [has_supermajority] as C20, with unit
+   weights).  The theorems hold for every block tree, every number of voters and every state that
+   a history of received vote messages can produce (no bound). *)
 From Coq Require Import List NArith.
-From C21 Require Import Model Spec.
-Theorem C21_placeholder : True. Proof. exact I. Qed.
-Print Assumptions C21_placeholder.
+From Common Require Import Outcome.
+From Grandpa Require Import Tree Votes RoundSpec.
+From C21 Require Import Model Spec Proofs Proofs2.
+Import ListNotations.
+
+(* ---- the vote filter -------------------------------------------------------------------- *)
+(* A vote message is stored (counted) only if it is well signed, for the current set and round,
+   from an authority, for a known block, carries that block's number and descends from the
+   finalised head. *)
+Theorem C21_filter : forall e st m st',
+  validate_vote_message true e st m = (0, st') -> msg_ok e st m = true.
+Proof. exact accepted_ok. Qed.
+Print Assumptions C21_filter.
+
+(* A message that is not accepted changes nothing, except that a second, different vote of an
+   authority makes it an equivocator. *)
+Theorem C21_rejected_unchanged : forall cn e st m c st',
+  validate_vote_message cn e st m = (c, st') -> c <> 0 -> c <> err_equivocation -> st' = st.
+Proof. exact rejected_unchanged. Qed.
+Print Assumptions C21_rejected_unchanged.
+
+(* Over all histories: starting from the empty round state, whatever messages arrive in whatever
+   order, every stored vote is one the property allows, each authority has at most one stored vote
+   per stage and is never both stored and an equivocator. *)
+Theorem C21_filter_histories : forall e head ms,
+  let st := run_messages true e (init_state head) ms in
+  wf e st /\ stored_ok e st = true /\ s_head st = head.
+Proof.
+  intros e head ms. apply (run_messages_inv e ms (init_state head)); [apply wf_init|reflexivity].
+Qed.
+Print Assumptions C21_filter_histories.
+
+(* the pinned validateVote never compared vote.Number with the header *)
+Theorem C21_filter_prefix_refuted :
+  exists e st m st', validate_vote_message false e st m = (0, st') /\ msg_ok e st m = false.
+Proof. exact accepted_ok_prefix_refuted. Qed.
+Print Assumptions C21_filter_prefix_refuted.
+
+(* ---- tallies ---------------------------------------------------------------------------- *)
+(* getTotalVotesForBlock is the specification's weight (descendants and equivocators counted), and
+   "more than floor(2n/3)" is the specification's supermajority. *)
+Theorem C21_totals_are_weights : forall e st sg b, wf_stage e st sg ->
+  total_votes e st sg b = weight (e_tree e) (unit_ws e) (spec_votes st sg) b.
+Proof. intros e st sg b W. exact (total_votes_weight e st sg W b). Qed.
+Print Assumptions C21_totals_are_weights.
+
+Theorem C21_threshold_is_supermajority : forall e st sg b, wf_stage e st sg -> 0 < e_voters e ->
+  (threshold e <? total_votes e st sg b)%N = spec_supermajority e st sg b.
+Proof. intros e st sg b W NV. exact (over_threshold_supermajority e st sg W NV b). Qed.
+Print Assumptions C21_threshold_is_supermajority.
+
+(* ---- the pre-commit target -------------------------------------------------------------- *)
+(* Whenever some block has more than 2/3 of the prevotes (descendants and equivocators counted;
+   stored votes as the filter leaves them; equivocators within the tolerance, so that "the highest
+   such block" is well defined -- C20_ghost_unique), getPreVotedBlock answers the highest such
+   block, for every iteration order of the Go maps the model abstracts from ... *)
+Theorem C21_prevoted_is_ghost : forall e st g,
+  wf e st -> stored_ok e st = true -> 0 < e_voters e -> in_tree (e_tree e) (s_head st) ->
+  spec_tolerant e st Prevote = true -> spec_ghost e st Prevote = Some g ->
+  prevoted_block e st = Ok (mkGV g (number e g)).
+Proof. intros e st g W SO NV HK TOL GH. exact (prevoted_is_ghost e st W SO NV HK g TOL GH). Qed.
+Print Assumptions C21_prevoted_is_ghost.
+
+(* ... and determinePreCommit answers that block capped at the pending authority change: its
+   ancestor at the height of the change when it lies above it. *)
+Theorem C21_precommit_target : forall e st g,
+  wf e st -> stored_ok e st = true -> 0 < e_voters e -> in_tree (e_tree e) (s_head st) ->
+  spec_tolerant e st Prevote = true -> spec_ghost e st Prevote = Some g ->
+  exists tg, spec_target e st = Some tg /\ anc (e_tree e) tg g /\
+             determine_precommit true e st = Ok (mkGV tg (number e tg)).
+Proof.
+  intros e st g W SO NV HK TOL GH.
+  destruct (target_defined e st g GH) as [tg [T A]]. exists tg. split; [exact T|]. split; [exact A|].
+  pose proof (precommit_is_target e st W SO NV HK g TOL GH) as P. now rewrite T in P.
+Qed.
+Print Assumptions C21_precommit_target.
+
+(* the pinned getPossibleSelectedBlocks (before fix C21-ghost-misses-unvoted-fork-point) returned as
+   soon as a directly voted block qualified: 7 voters, block 1 has 5 votes through its forks (3
+   below it + 2 equivocators) but is not a vote target, block 0 is one: the answer was block 0 *)
+Theorem C21_ghost_prefix_refuted :
+  wf ex_env ex_st /\ stored_ok ex_env ex_st = true /\ spec_tolerant ex_env ex_st Prevote = true /\
+  spec_ghost ex_env ex_st Prevote = Some 1 /\
+  prevoted_block_prefix ex_env ex_st = Some (mkGV 0 0%N) /\
+  prevoted_block ex_env ex_st = Ok (mkGV 1 1%N).
+Proof. exact ghost_prefix_refuted. Qed.
+Print Assumptions C21_ghost_prefix_refuted.
+
+(* the pinned determinePreCommit resolved the cap on the best chain: block 3 instead of block 5 *)
+Theorem C21_precommit_cap_prefix_refuted :
+  let e := mkEnv [0;1;2;3;2;5] 1 4 (Some 3%N) 0 in
+  let st := mkSt [(0, mkGV 6 4%N)] [] [] [] 0 in
+  spec_target e st = Some 5 /\ determine_precommit true e st = Ok (mkGV 5 3%N) /\
+  determine_precommit false e st = Ok (mkGV 3 3%N) /\ ancb (e_tree e) 3 6 = false.
+Proof. vm_compute. repeat split; reflexivity. Qed.
+Print Assumptions C21_precommit_cap_prefix_refuted.
+
+(* ---- finalisation ----------------------------------------------------------------------- *)
+(* attemptToFinalize finalises only a block with more than 2/3 of the precommits that is the
+   pre-voted block or one of its ancestors ... *)
+Theorem C21_finalises_only_prevoted : forall e st b st',
+  wf e st -> 0 < e_voters e ->
+  attempt_to_finalize e st = (Ok (Some b), st') ->
+  spec_supermajority e st Precommit b = true /\
+  (exists p, prevoted_block e st = Ok p /\ anc (e_tree e) b (gv_block p)) /\ s_head st' = b.
+Proof. exact finalises_only_prevoted. Qed.
+Print Assumptions C21_finalises_only_prevoted.
+
+(* ... and, whenever some block has more than 2/3 of the prevotes, that block is the GRANDPA ghost
+   (the precommit target before the cap): the finalised block is the ghost or an ancestor of it *)
+Theorem C21_finalises_only_partial : forall e st b st' g,
+  wf e st -> stored_ok e st = true -> 0 < e_voters e -> in_tree (e_tree e) (s_head st) ->
+  spec_tolerant e st Prevote = true -> spec_ghost e st Prevote = Some g ->
+  attempt_to_finalize e st = (Ok (Some b), st') ->
+  finalise_ok e st b = true.
+Proof. exact finalises_only_partial. Qed.
+Print Assumptions C21_finalises_only_partial.
+
+(* without a block with more than 2/3 of the prevotes getPreVotedBlock lowers the threshold and
+   attemptToFinalize still finalises (finding finalises-without-prevote-supermajority) *)
+Theorem C21_finalises_only_refuted :
+  let e := mkEnv [0;0;0;0;0] 3 3 None 2 in
+  let st := mkSt [(1, mkGV 5 1%N); (0, mkGV 5 1%N)] [(1, mkGV 5 1%N); (2, mkGV 5 1%N); (0, mkGV 5 1%N)] [] [] 0 in
+  stored_ok e st = true /\ no_prevote_supermajority_guard e st = true /\
+  fst (attempt_to_finalize e st) = Ok (Some 5) /\ finalise_ok e st 5 = false.
+Proof. vm_compute. repeat split; reflexivity. Qed.
+Print Assumptions C21_finalises_only_refuted.
+
+(* ---- non-vacuity ------------------------------------------------------------------------- *)
+(* 4 voters; prevotes 3, 3, 4 on the chain 0-1-2-3-4: ghost 3; a change pending at height 2 caps the
+   pre-commit at block 2; precommits 2, 3, 3 finalise block 2 *)
+Example C21_nonvacuous :
+  let e := mkEnv [0;1;2;3] 4 4 (Some 2%N) 3 in
+  let st0 := run_messages true e (init_state 0)
+     [mkMsg RoundCurrent true Prevote 0 true (mkGV 3 3%N); mkMsg RoundCurrent true Prevote 1 true (mkGV 3 3%N);
+      mkMsg RoundCurrent true Prevote 2 true (mkGV 4 4%N); mkMsg RoundCurrent true Prevote 2 true (mkGV 4 9%N);
+      mkMsg RoundCurrent true Precommit 0 true (mkGV 2 2%N); mkMsg RoundCurrent true Precommit 1 true (mkGV 3 3%N);
+      mkMsg RoundCurrent true Precommit 2 true (mkGV 3 3%N)] in
+  spec_ghost e st0 Prevote = Some 3 /\ ghost_missed_guard e st0 = false /\
+  prevoted_block e st0 = Ok (mkGV 3 3%N) /\ determine_precommit true e st0 = Ok (mkGV 2 2%N) /\
+  fst (attempt_to_finalize e st0) = Ok (Some 2).
+Proof. vm_compute. repeat split; reflexivity. Qed.
